@@ -94,6 +94,47 @@ func VC17_ASPath() {
 	}
 }
 
+// prepending (export to eBGP, policy action) keeps every segment within 1..255 ASNs and the result round-trips
+func VC17_Prepend() {
+	n, times := vParam("n"), vParam("times")
+	asns := make([]uint32, n)
+	for i := range asns {
+		asns[i] = ndU32()
+	}
+	nh := bnet.IPv4(1)
+	b := &route.BGPPath{BGPPathA: &route.BGPPathA{NextHop: &nh, Source: &nh}, ASPath: &types.ASPath{{Type: types.ASSequence, ASNs: asns}}}
+	own := ndU32()
+	b.Prepend(own, uint16(times))
+	total := 0
+	for _, seg := range *b.ASPath {
+		vAssert(len(seg.ASNs) >= 1, "C17.prepend.segment.nonempty")
+		vAssert(len(seg.ASNs) <= 255, "C17.prepend.segment.max255")
+		total += len(seg.ASNs)
+	}
+	vAssert(total == n+times, "C17.prepend.total")
+	got := c17Attr(&PathAttribute{TypeCode: ASPathAttr, Value: b.ASPath})
+	if got == nil {
+		return
+	}
+	gp := got.Value.(*types.ASPath)
+	vAssert(len(*gp) == len(*b.ASPath), "C17.prepend.roundtrip.segments")
+	if len(*gp) == len(*b.ASPath) {
+		same := true
+		for i := range *gp {
+			same = vAnd(same, len((*gp)[i].ASNs) == len((*b.ASPath)[i].ASNs))
+		}
+		vAssert(same, "C17.prepend.roundtrip.seglens")
+		if same {
+			for i := range *gp {
+				for j := range (*gp)[i].ASNs {
+					same = vAnd(same, (*gp)[i].ASNs[j] == (*b.ASPath)[i].ASNs[j])
+				}
+			}
+			vAssert(same, "C17.prepend.roundtrip.asns")
+		}
+	}
+}
+
 func VC17_Communities() {
 	n := vParam("n")
 	cs := make(types.Communities, n)
